@@ -244,13 +244,13 @@ impl World {
         }
     }
 
-    fn install_keys(&mut self, t: usize) {
+    /// The next session to install on transport t (and the independent receiver context for its keys).
+    fn next_session(&mut self, t: usize) -> SrtpSession {
         self.gen_[t] += 1;
         let g = self.gen_[t];
-        let s = session(self.profile, keying(self.kseed, t, g, 0), keying(self.kseed, t, g, 1));
-        self.tr[t].start_srtp(s);
         // independent receiver: unprotects with the transport's *transmit* keys
         self.verifier[t].push(session(self.profile, keying(self.kseed, 9, 9, 9), keying(self.kseed, t, g, 0)));
+        session(self.profile, keying(self.kseed, t, g, 0), keying(self.kseed, t, g, 1))
     }
 
     /// The remote peer's sender for key generation g (>= 1) of X.
@@ -523,6 +523,184 @@ fn bridged_origin(w: &mut World, t: usize, d: &[u8]) -> Option<usize> {
     None
 }
 
+// ------------------------------------------------------------------------------------- operations
+
+enum Act {
+    Keys(usize, SrtpSession),
+    SendRaw(Vec<u8>),
+    SendRtp(RtpPacket),
+    SendRtcp(Vec<RtcpPacket>),
+    Bye { clear: bool, pk: RtcpPacket },
+    Recv(Bytes),
+    Bridge(usize, RtpRewriteBridgeParams),
+    Unbridge,
+}
+
+/// Concretise one model action for step k (harness code; consumes randomness, updates harness bookkeeping).
+fn prepare(op: &str, w: &mut World, k: usize, rng: &mut Rng) -> (Act, String) {
+    let nonce = w.nonce;
+    let mut how = String::new();
+    let act = match op {
+        "KX" => Act::Keys(0, w.next_session(0)),
+        "KY" => Act::Keys(1, w.next_session(1)),
+        "S" | "SR" => {
+            let p = rtp_packet(ssrc_out(nonce, k), w.out_seq, OUT_MARK, nonce, k, rng);
+            w.out_seq = w.out_seq.wrapping_add(1);
+            if op == "S" { Act::SendRaw(p.marshal().unwrap()) } else { Act::SendRtp(p) }
+        }
+        "SC" => Act::SendRtcp(rtcp_packets(ssrc_out(nonce, k), rng)),
+        "BYE" | "CL" => Act::Bye {
+            clear: op == "CL",
+            pk: RtcpPacket::Goodbye(Goodbye {
+                sources: vec![ssrc_out(nonce, k), RTCP_MARK],
+                reason: Some("C14-OUTBOUND-CLEARTEXT:bye".into()),
+            }),
+        },
+        "RcR" | "RvR" | "RfR" | "RcC" | "RvC" | "RfC" => {
+            let rtcp = op.ends_with('C');
+            let auth = match op.as_bytes()[1] {
+                b'c' => "clear",
+                b'v' => "valid",
+                _ => "forged",
+            };
+            let (bytes, h) = inbound(w, rtcp, auth, k, rng);
+            how = h;
+            Act::Recv(Bytes::from(bytes))
+        }
+        "BX" | "BY" => Act::Bridge(
+            if op == "BX" { 0 } else { 1 },
+            RtpRewriteBridgeParams {
+                ssrc_offset: BRIDGE_OFFSET,
+                fixed_out_ssrc: if rng.below(2) == 0 { Some(ssrc_bridged_fixed(nonce)) } else { None },
+                payload_type: if rng.below(2) == 0 { Some(100) } else { None },
+                dtmf_payload_type: None,
+                initial_sequence_number: Some(2000 + rng.below(40000) as u16),
+                initial_timestamp_offset: Some(rng.next() as u32),
+                strip_extensions: rng.below(2) == 0,
+            },
+        ),
+        "B0" => Act::Unbridge,
+        x => tool_error(&format!("unknown op {x}")),
+    };
+    (act, how)
+}
+
+/// Execute one action on the real objects (code under test only).
+async fn exec(act: Act, tr: &[Arc<RtpTransport>; 2], conn: &Arc<IceConn>, peer_addr: SocketAddr, mbuf: &mut Vec<u8>) -> String {
+    match act {
+        Act::Keys(t, s) => {
+            tr[t].start_srtp(s);
+            String::new()
+        }
+        Act::SendRaw(raw) => format!("{:?}", tr[0].send(&raw).await.map_err(|e| e.to_string())),
+        Act::SendRtp(p) => format!("{:?}", tr[0].send_rtp(p).await.map_err(|e| e.to_string())),
+        Act::SendRtcp(pk) => format!("{:?}", tr[0].send_rtcp(&pk).await.map_err(|e| e.to_string())),
+        Act::Bye { clear, pk } => {
+            // the close path of PeerConnection: listeners cleared, then the synchronous BYE
+            if clear {
+                tr[0].clear_listeners();
+            }
+            tr[0].send_rtcp_sync(&[pk]);
+            String::new()
+        }
+        // through the connection's demultiplexer, as the socket read loop does
+        Act::Recv(bytes) => {
+            conn.receive(bytes, peer_addr, mbuf).await;
+            String::new()
+        }
+        Act::Bridge(t, params) => {
+            tr[0].bridge_rewrite_to(tr[t].clone(), params);
+            String::new()
+        }
+        Act::Unbridge => {
+            tr[0].clear_bridge_rewrite();
+            String::new()
+        }
+    }
+}
+
+// ------------------------------------------------------------------------------------ observation
+
+struct WireObs {
+    t: usize,
+    cls: char,
+    detail: Value,
+    /// index of the step (operation) that produced the datagram, recovered from its content
+    origin_step: usize,
+    len: usize,
+}
+
+struct Seen {
+    wire: Vec<WireObs>,
+    /// (sink, step of the inbound packet that was delivered)
+    deliveries: Vec<(char, Option<usize>)>,
+}
+
+/// Everything that reached the two wires and the sinks since the previous call. `k` is the step that has
+/// just run (datagrams / deliveries whose content identifies no step are attributed to it); `ops[i]` is the
+/// operation of step i.
+fn observe(net: &mut Net, w: &mut World, k: usize, ops: &[&str], stats: &mut Stats) -> Seen {
+    observe2(net, w, k, ops, stats, true)
+}
+
+fn observe2(net: &mut Net, w: &mut World, k: usize, ops: &[&str], stats: &mut Stats, count_late: bool) -> Seen {
+    let nonce = w.nonce;
+    let mut wire = Vec::new();
+    let mut deliveries: Vec<(char, Option<usize>)> = Vec::new();
+    for t in 0..2 {
+        for d in net.capture(t) {
+            // attribute the datagram to the behaviour / step that produced it (content, not arrival order)
+            let origin_step = match wire_identity(&d) {
+                Some((n, _)) if n != nonce => {
+                    stats.stale += 1; // left over from an earlier behaviour (cannot reach fresh sockets; belt and braces)
+                    continue;
+                }
+                Some((_, Some(s))) if s < ops.len() => s,
+                Some((_, None)) => bridged_origin(w, t, &d).unwrap_or(k),
+                _ => k,
+            };
+            if origin_step != k && count_late {
+                stats.late += 1;
+                if std::env::var("GATE_DEBUG").is_ok() {
+                    eprintln!("late: origin {origin_step} k {k} ops {ops:?} id {:?}", wire_identity(&d));
+                }
+            }
+            let (cls, detail) = classify(w, t, &d);
+            stats.datagrams += 1;
+            if ops[origin_step.min(k)].starts_with('R') {
+                // a datagram caused by a receive step was forwarded by the bridge fast path
+                deliveries.push(('b', bridged_origin(w, t, &d)));
+            }
+            wire.push(WireObs { t, cls, detail, origin_step, len: d.len() });
+        }
+    }
+    let by_seq = |w: &World, p: &RtpPacket| step_of_payload(IN_MARK, nonce, &p.payload).or(w.in_by_seq.get(&p.header.sequence_number).copied());
+    while let Ok((p, _)) = w.lst_rx.try_recv() {
+        deliveries.push(('l', by_seq(w, &p)));
+    }
+    while let Ok((p, _)) = w.prov_rx.try_recv() {
+        deliveries.push(('l', by_seq(w, &p)));
+    }
+    while let Ok(pk) = w.rtcp_rx.try_recv() {
+        let origin = pk.iter().find_map(rtcp_sender_ssrc).and_then(|s| w.in_by_rtcp_ssrc.get(&s).copied());
+        deliveries.push(('r', origin));
+    }
+    for t in 0..2 {
+        for p in std::mem::take(&mut *w.obs[t].ingress.lock()) {
+            deliveries.push(('o', by_seq(w, &p)));
+        }
+        for p in std::mem::take(&mut *w.obs[t].egress.lock()) {
+            // locally originated packets (send_rtp) pass the egress observer too: not a delivery
+            if step_of_payload(OUT_MARK, nonce, &p.payload).is_some() {
+                continue;
+            }
+            deliveries.push(('t', step_of_payload(IN_MARK, nonce, &p.payload)));
+        }
+    }
+    stats.deliveries += deliveries.len() as u64;
+    Seen { wire, deliveries }
+}
+
 // ----------------------------------------------------------------------------------------- replay
 
 struct StepExp {
@@ -578,90 +756,15 @@ async fn run_behaviour(net: &mut Net, case: &Value, idx: usize, seed: u64, out: 
 
     for (k, st) in steps.iter().enumerate() {
         ads.push(st.ad);
-        let mut how = String::new();
         let mut result = String::new();
         // ---- prepare (harness code: a panic here is a harness bug and must crash the run)
-        enum Act {
-            Keys(usize),
-            SendRaw(Vec<u8>),
-            SendRtp(RtpPacket),
-            SendRtcp(Vec<RtcpPacket>),
-            Bye { clear: bool, pk: RtcpPacket },
-            Recv(Bytes),
-            Bridge(usize, RtpRewriteBridgeParams),
-            Unbridge,
-        }
-        let act = match st.op.as_str() {
-            "KX" => Act::Keys(0),
-            "KY" => Act::Keys(1),
-            "S" | "SR" => {
-                let p = rtp_packet(ssrc_out(nonce, k), w.out_seq, OUT_MARK, nonce, k, &mut rng);
-                w.out_seq = w.out_seq.wrapping_add(1);
-                if st.op == "S" { Act::SendRaw(p.marshal().unwrap()) } else { Act::SendRtp(p) }
-            }
-            "SC" => Act::SendRtcp(rtcp_packets(ssrc_out(nonce, k), &mut rng)),
-            "BYE" | "CL" => Act::Bye {
-                clear: st.op == "CL",
-                pk: RtcpPacket::Goodbye(Goodbye {
-                    sources: vec![ssrc_out(nonce, k), RTCP_MARK],
-                    reason: Some("C14-OUTBOUND-CLEARTEXT:bye".into()),
-                }),
-            },
-            "RcR" | "RvR" | "RfR" | "RcC" | "RvC" | "RfC" => {
-                let rtcp = st.op.ends_with('C');
-                let auth = match st.op.as_bytes()[1] {
-                    b'c' => "clear",
-                    b'v' => "valid",
-                    _ => "forged",
-                };
-                let (bytes, h) = inbound(&mut w, rtcp, auth, k, &mut rng);
-                how = h;
-                Act::Recv(Bytes::from(bytes))
-            }
-            "BX" | "BY" => Act::Bridge(
-                if st.op == "BX" { 0 } else { 1 },
-                RtpRewriteBridgeParams {
-                    ssrc_offset: BRIDGE_OFFSET,
-                    fixed_out_ssrc: if rng.below(2) == 0 { Some(ssrc_bridged_fixed(nonce)) } else { None },
-                    payload_type: if rng.below(2) == 0 { Some(100) } else { None },
-                    dtmf_payload_type: None,
-                    initial_sequence_number: Some(2000 + rng.below(40000) as u16),
-                    initial_timestamp_offset: Some(rng.next() as u32),
-                    strip_extensions: rng.below(2) == 0,
-                },
-            ),
-            "B0" => Act::Unbridge,
-            x => tool_error(&format!("unknown op {x}")),
-        };
+        let (act, how) = prepare(&st.op, &mut w, k, &mut rng);
         // ---- execute on the real objects (a panic here is data)
-        if let Act::Keys(t) = act {
-            w.install_keys(t);
-        }
         let r = {
-            let w = &w;
             let result = &mut result;
             let mbuf = &mut mbuf;
-            let peer_addr = net.peer_addr[0];
-            catch_async(async move {
-                match act {
-                    Act::Keys(_) => {}
-                    Act::SendRaw(raw) => *result = format!("{:?}", w.tr[0].send(&raw).await.map_err(|e| e.to_string())),
-                    Act::SendRtp(p) => *result = format!("{:?}", w.tr[0].send_rtp(p).await.map_err(|e| e.to_string())),
-                    Act::SendRtcp(pk) => *result = format!("{:?}", w.tr[0].send_rtcp(&pk).await.map_err(|e| e.to_string())),
-                    Act::Bye { clear, pk } => {
-                        // the close path of PeerConnection: listeners cleared, then the synchronous BYE
-                        if clear {
-                            w.tr[0].clear_listeners();
-                        }
-                        w.tr[0].send_rtcp_sync(&[pk]);
-                    }
-                    // through the connection's demultiplexer, as the socket read loop does
-                    Act::Recv(bytes) => w.conn[0].receive(bytes, peer_addr, mbuf).await,
-                    Act::Bridge(t, params) => w.tr[0].bridge_rewrite_to(w.tr[t].clone(), params),
-                    Act::Unbridge => w.tr[0].clear_bridge_rewrite(),
-                }
-            })
-            .await
+            let (tr, conn, peer_addr) = (w.tr.clone(), w.conn[0].clone(), net.peer_addr[0]);
+            catch_async(async move { *result = exec(act, &tr, &conn, peer_addr, mbuf).await }).await
         };
         stats.steps += 1;
         let mut step_divs: Vec<Value> = Vec::new();
@@ -669,78 +772,34 @@ async fn run_behaviour(net: &mut Net, case: &Value, idx: usize, seed: u64, out: 
             step_divs.push(json!({"rule": "NoPanic", "field": "panic", "observed": msg, "at": LAST_PANIC_AT.lock().clone()}));
         }
 
-        // ---- wire
+        // ---- what the step put on the wire and handed to the sinks
+        let is_recv = st.op.starts_with('R');
+        let ops: Vec<&str> = steps.iter().map(|s| s.op.as_str()).collect();
+        let seen = observe(net, &mut w, k, &ops, stats);
         let mut observed_emission = String::new();
         let mut wire_detail = Vec::new();
-        let is_recv = st.op.starts_with('R');
-        let mut delivered: Vec<(char, Option<usize>)> = Vec::new(); // (sink, origin step)
-        for t in 0..2 {
-            for d in net.capture(t) {
-                // attribute the datagram to the behaviour / step that produced it (content, not arrival order)
-                let origin_step = match wire_identity(&d) {
-                    Some((n, _)) if n != nonce => {
-                        stats.stale += 1; // left over from an earlier behaviour (cannot reach fresh sockets; belt and braces)
-                        continue;
-                    }
-                    Some((_, Some(s))) if s < steps.len() => s,
-                    Some((_, None)) => bridged_origin(&mut w, t, &d).unwrap_or(k),
-                    _ => k,
-                };
-                if origin_step != k {
-                    stats.late += 1;
-                }
-                let judged = &steps[origin_step.min(k)];
-                let (cls, detail) = classify(&mut w, t, &d);
-                observed_emission.push_str(TNAME[t]);
-                observed_emission.push(cls);
-                wire_detail.push(json!({"tr": TNAME[t], "cls": cls.to_string(), "detail": detail, "len": d.len(),
-                                        "origin_step": origin_step + 1}));
-                stats.datagrams += 1;
-                let allowed = match judged.aw[t] {
-                    0 => "",
-                    1 => "p",
-                    _ => "pc",
-                };
-                if !allowed.contains(cls) {
-                    step_divs.push(json!({"rule": judged.rw[t], "field": "wire", "tr": TNAME[t], "allowed": allowed,
-                                          "observed": cls.to_string(), "detail": detail, "origin_step": origin_step + 1,
-                                          "origin_op": judged.op}));
-                }
-                if steps[origin_step.min(k)].op.starts_with('R') {
-                    // a datagram caused by a receive step was forwarded by the bridge fast path
-                    delivered.push(('b', bridged_origin(&mut w, t, &d)));
-                }
+        for o in &seen.wire {
+            let judged = &steps[o.origin_step.min(k)];
+            observed_emission.push_str(TNAME[o.t]);
+            observed_emission.push(o.cls);
+            wire_detail.push(json!({"tr": TNAME[o.t], "cls": o.cls.to_string(), "detail": o.detail, "len": o.len,
+                                    "origin_step": o.origin_step + 1}));
+            let allowed = match judged.aw[o.t] {
+                0 => "",
+                1 => "p",
+                _ => "pc",
+            };
+            if !allowed.contains(o.cls) {
+                step_divs.push(json!({"rule": judged.rw[o.t], "field": "wire", "tr": TNAME[o.t], "allowed": allowed,
+                                      "observed": o.cls.to_string(), "detail": o.detail, "origin_step": o.origin_step + 1,
+                                      "origin_op": judged.op}));
             }
         }
-
-        // ---- sinks
-        while let Ok((p, _)) = w.lst_rx.try_recv() {
-            delivered.push(('l', step_of_payload(IN_MARK, nonce, &p.payload).or(w.in_by_seq.get(&p.header.sequence_number).copied())));
-        }
-        while let Ok((p, _)) = w.prov_rx.try_recv() {
-            delivered.push(('l', step_of_payload(IN_MARK, nonce, &p.payload).or(w.in_by_seq.get(&p.header.sequence_number).copied())));
-        }
-        while let Ok(pk) = w.rtcp_rx.try_recv() {
-            let origin = pk.iter().find_map(rtcp_sender_ssrc).and_then(|s| w.in_by_rtcp_ssrc.get(&s).copied());
-            delivered.push(('r', origin));
-        }
-        for t in 0..2 {
-            for p in std::mem::take(&mut *w.obs[t].ingress.lock()) {
-                delivered.push(('o', step_of_payload(IN_MARK, nonce, &p.payload).or(w.in_by_seq.get(&p.header.sequence_number).copied())));
-            }
-            for p in std::mem::take(&mut *w.obs[t].egress.lock()) {
-                // locally originated packets (send_rtp) pass the egress observer too: not a delivery
-                if step_of_payload(OUT_MARK, nonce, &p.payload).is_some() {
-                    continue;
-                }
-                delivered.push(('t', step_of_payload(IN_MARK, nonce, &p.payload)));
-            }
-        }
+        let delivered = seen.deliveries;
         let mut observed_deliveries: Vec<char> = delivered.iter().map(|d| d.0).collect();
         observed_deliveries.sort();
         observed_deliveries.dedup();
         for (sink, origin) in &delivered {
-            stats.deliveries += 1;
             // replay is sequential, so a delivery stems from this step's inbound packet; the origin recovered
             // from the delivered content is a cross-check (content that cannot be traced is judged as this step's)
             let allowed = match origin {
@@ -790,6 +849,298 @@ async fn run_behaviour(net: &mut Net, case: &Value, idx: usize, seed: u64, out: 
     }
 }
 
+// ------------------------------------------------------------------------- baton (exact schedules)
+
+/// Three task threads (snd, rcv, ctl) run the operations; `rustrtc::verif::sched(label)` parks the calling
+/// task until the controller grants it its next step, so a TLC schedule (a sequence of task steps) is
+/// executed exactly: a step runs from one sched point (or the idle point between operations) to the next.
+struct Baton {
+    m: std::sync::Mutex<BatonState>,
+    cv: std::sync::Condvar,
+}
+
+struct BatonState {
+    granted: Option<usize>,
+    parked: [Option<String>; 3],
+    cmd: [Option<Cmd>; 3],
+    result: [Option<Result<String, String>>; 3],
+    quit: bool,
+}
+
+struct Cmd {
+    act: Act,
+    tr: [Arc<RtpTransport>; 2],
+    conn: Arc<IceConn>,
+    peer_addr: SocketAddr,
+}
+
+thread_local! { static TASK: std::cell::Cell<Option<usize>> = const { std::cell::Cell::new(None) }; }
+
+impl Baton {
+    /// Called on a task thread: park at `label` until granted.
+    fn park(&self, k: usize, label: &str) {
+        let mut g = self.m.lock().unwrap();
+        g.parked[k] = Some(label.to_string());
+        self.cv.notify_all();
+        while g.granted != Some(k) && !g.quit {
+            g = self.cv.wait(g).unwrap();
+        }
+        g.granted = None;
+        g.parked[k] = None;
+    }
+
+    /// Called on the controller: let task k run one step (starting `cmd` if given); returns the label it parks at.
+    fn step(&self, k: usize, cmd: Option<Cmd>) -> String {
+        let mut g = self.m.lock().unwrap();
+        if g.parked[k].is_none() {
+            tool_error("baton: task is not parked");
+        }
+        if let Some(c) = cmd {
+            if g.parked[k].as_deref() != Some("idle") {
+                tool_error("baton: operation started on a task that is inside an operation");
+            }
+            g.cmd[k] = Some(c);
+        }
+        g.parked[k] = None;
+        g.granted = Some(k);
+        self.cv.notify_all();
+        let deadline = std::time::Instant::now() + Duration::from_secs(30);
+        while g.parked[k].is_none() {
+            let (g2, to) = self.cv.wait_timeout(g, Duration::from_secs(1)).unwrap();
+            g = g2;
+            if to.timed_out() && std::time::Instant::now() > deadline {
+                tool_error("baton: task did not reach a scheduling point within 30 s");
+            }
+        }
+        g.parked[k].clone().unwrap()
+    }
+}
+
+fn spawn_tasks(baton: &Arc<Baton>, handle: tokio::runtime::Handle) {
+    let b = baton.clone();
+    rustrtc::verif::set_scheduler(Some(Arc::new(move |label: &'static str| {
+        if let Some(k) = TASK.with(|t| t.get()) {
+            b.park(k, label);
+        }
+    })));
+    for k in 0..3 {
+        let b = baton.clone();
+        let h = handle.clone();
+        std::thread::spawn(move || {
+            TASK.with(|t| t.set(Some(k)));
+            let mut mbuf = Vec::new();
+            loop {
+                b.park(k, "idle");
+                let cmd = {
+                    let mut g = b.m.lock().unwrap();
+                    if g.quit {
+                        return;
+                    }
+                    g.cmd[k].take()
+                };
+                let Some(c) = cmd else { continue };
+                let r = h.block_on(async {
+                    let mut res = String::new();
+                    let mb = &mut mbuf;
+                    let rr = &mut res;
+                    match catch_async(async move { *rr = exec(c.act, &c.tr, &c.conn, c.peer_addr, mb).await }).await {
+                        Ok(()) => Ok(res),
+                        Err(m) => Err(m),
+                    }
+                });
+                b.m.lock().unwrap().result[k] = Some(r);
+            }
+        });
+    }
+    // wait until the three tasks are parked idle
+    let mut g = baton.m.lock().unwrap();
+    while g.parked.iter().any(|p| p.is_none()) {
+        g = baton.cv.wait(g).unwrap();
+    }
+}
+
+const TASKS: [&str; 3] = ["snd", "rcv", "ctl"];
+
+/// the verif::sched label a task parks at <-> the model's pc
+fn model_label(hook: &str) -> &'static str {
+    match hook {
+        "idle" => "idle",
+        "rtp.send.slot" | "rtp.send_rtp.slot" => "snd.slot",
+        "rtp.send_rtcp.emit" | "rtp.send_rtcp_sync.emit" => "snd.emit",
+        "rtp.recv_rtcp.slot" => "rcv.rtcp_slot",
+        "rtp.recv_rtp.slot" => "rcv.rtp_slot",
+        "rtp.bridge.flag" => "rcv.bridge",
+        "rtp.bridge.target" => "rcv.target",
+        "rtp.bridge.emit" => "rcv.emit",
+        "rtp.bridge.install" | "rtp.bridge.clear" => "ctl.flag",
+        _ => "?",
+    }
+}
+
+/// One edge of the concurrent model: replay the schedule `pre`, then the step `act`, on fresh transports.
+fn run_edge(net: &mut Net, baton: &Arc<Baton>, case: &Value, idx: usize, seed: u64, out: &mut NdjsonOut, stats: &mut Stats) {
+    let req = [case["rx"].as_bool().unwrap(), case["ry"].as_bool().unwrap()];
+    let mut sched: Vec<(usize, String, String, bool)> = Vec::new();
+    for e in case["pre"].as_array().unwrap().iter().chain(std::iter::once(&case["act"])) {
+        let a = e.as_array().unwrap();
+        let task = TASKS.iter().position(|t| *t == a[0].as_str().unwrap()).unwrap_or_else(|| tool_error("bad task"));
+        sched.push((task, a[1].as_str().unwrap().to_string(), a[2].as_str().unwrap().to_string(), a[3].as_u64() == Some(1)));
+    }
+    let ex = case["exp"].as_array().unwrap();
+    let exp = StepExp {
+        op: String::new(),
+        emission: ex[0].as_str().unwrap().into(),
+        deliveries: ex[1].as_str().unwrap().into(),
+        aw: [ex[2].as_u64().unwrap(), ex[3].as_u64().unwrap()],
+        rw: [
+            if ex[4].as_str() == Some("N") { "NothingBeforeKeys".into() } else { "NoClearEgress".into() },
+            if ex[5].as_str() == Some("N") { "NothingBeforeKeys".into() } else { "NoClearEgress".into() },
+        ],
+        ad: ex[6].as_u64().unwrap() == 1,
+        dx: true,
+    };
+    let mut h: u64 = seed ^ 0x2545_F491_4F6C_DD1D;
+    for (t, op, _, _) in &sched {
+        h = (h ^ *t as u64).wrapping_mul(0x100000001b3);
+        for b in op.bytes() {
+            h = (h ^ b as u64).wrapping_mul(0x100000001b3);
+        }
+    }
+    h ^= (req[0] as u64) << 1 | (req[1] as u64);
+    let mut rng = Rng(h);
+    let profile = PROFILES[rng.below(3) as usize];
+    let kseed = rng.next();
+    let nonce = idx as u16;
+    net.renew_peers();
+    let mut w = World::new(net, req, profile, kseed, nonce, &mut rng);
+    // the operation running on each task, by the index of the step that started it
+    let mut ops: Vec<String> = vec![String::new(); sched.len()];
+    let mut cur_op: [Option<usize>; 3] = [None; 3];
+    // which inbound packets may be delivered: valid ones, once X has a session (judged per delivery below)
+    let n = sched.len();
+    let mut divs: Vec<Value> = Vec::new();
+    let mut structure_ok = true;
+    for (i, (task, op, lbl, unspec)) in sched.iter().enumerate() {
+        let cmd = if !op.is_empty() {
+            ops[i] = op.clone();
+            cur_op[*task] = Some(i);
+            let (act, _how) = prepare(op, &mut w, i, &mut rng);
+            Some(Cmd { act, tr: w.tr.clone(), conn: w.conn[0].clone(), peer_addr: net.peer_addr[0] })
+        } else {
+            None
+        };
+        let parked = baton.step(*task, cmd);
+        stats.steps += 1;
+        if let Some(Err(m)) = baton.m.lock().unwrap().result[*task].take() {
+            divs.push(json!({"rule": "NoPanic", "field": "panic", "observed": m, "at": LAST_PANIC_AT.lock().clone(), "step": i + 1}));
+        }
+        let opsr: Vec<&str> = ops.iter().map(|s| s.as_str()).collect();
+        let seen = observe(net, &mut w, cur_op[*task].unwrap_or(i), &opsr, stats);
+        let last = i + 1 == n;
+        // the step structure of the code (beyond the property: a refactoring may legitimately change it)
+        if model_label(&parked) != lbl {
+            if !unspec {
+                divs.push(json!({"rule": "EXT", "field": "step-structure", "step": i + 1, "expected": lbl, "observed": parked}));
+            } else {
+                stats.unspecified += 1; // the schedule cannot be followed further; nothing to report
+            }
+            structure_ok = false;
+        }
+        let mut emission = String::new();
+        for o in &seen.wire {
+            emission.push_str(TNAME[o.t]);
+            emission.push(o.cls);
+            // state-free part of C14, on every step of the schedule
+            if req[o.t] && o.cls != 'p' {
+                divs.push(json!({"rule": if w.gen_[o.t] == 0 { "NothingBeforeKeys" } else { "NoClearEgress" }, "field": "wire",
+                                 "tr": TNAME[o.t], "observed": o.cls.to_string(), "detail": o.detail, "step": i + 1,
+                                 "origin_op": opsr[o.origin_step.min(i)]}));
+            } else if last && structure_ok {
+                let allowed = match exp.aw[o.t] {
+                    0 => "",
+                    1 => "p",
+                    _ => "pc",
+                };
+                if !allowed.contains(o.cls) {
+                    divs.push(json!({"rule": exp.rw[o.t], "field": "wire", "tr": TNAME[o.t], "allowed": allowed,
+                                     "observed": o.cls.to_string(), "detail": o.detail, "step": i + 1,
+                                     "origin_op": opsr[o.origin_step.min(i)]}));
+                }
+            }
+        }
+        let mut sinks: Vec<char> = seen.deliveries.iter().map(|d| d.0).collect();
+        sinks.sort();
+        sinks.dedup();
+        for (sink, origin) in &seen.deliveries {
+            let origin_op = origin.and_then(|s| opsr.get(s).copied()).unwrap_or("");
+            let valid = origin_op.len() == 3 && origin_op.as_bytes()[1] == b'v';
+            if req[0] && !(valid && w.gen_[0] > 0) {
+                divs.push(json!({"rule": "NoClearIngress", "field": "sink", "sink": sink.to_string(), "step": i + 1,
+                                 "origin_op": origin_op}));
+            } else if last && structure_ok && !exp.ad {
+                divs.push(json!({"rule": "NoClearIngress", "field": "sink", "sink": sink.to_string(), "step": i + 1,
+                                 "origin_op": origin_op, "note": "not allowed in the model state of this step"}));
+            }
+        }
+        if last && structure_ok {
+            let mut exp_d: Vec<char> = exp.deliveries.chars().collect();
+            exp_d.sort();
+            // (a protected packet taken as plain RTP/RTCP by a session-less, non-mandatory transport parses or not)
+            if !unspec && (emission != exp.emission || sinks != exp_d) {
+                divs.push(json!({"rule": "EXT", "field": "exact", "step": i + 1,
+                                 "expected": {"wire": exp.emission, "sinks": exp.deliveries},
+                                 "observed": {"wire": emission, "sinks": sinks.iter().collect::<String>()}}));
+            }
+        }
+        if parked == "idle" {
+            cur_op[*task] = None;
+        }
+        if !structure_ok {
+            break;
+        }
+    }
+    // run every unfinished operation to its end so that the tasks are idle for the next edge
+    for k in 0..3 {
+        let mut guard = 0;
+        while baton.m.lock().unwrap().parked[k].as_deref() != Some("idle") {
+            baton.step(k, None);
+            guard += 1;
+            if guard > 50 {
+                tool_error("baton: operation does not finish");
+            }
+        }
+        baton.m.lock().unwrap().result[k] = None;
+    }
+    let opsr: Vec<&str> = ops.iter().map(|s| s.as_str()).collect();
+    let tail = observe2(net, &mut w, n.saturating_sub(1), &opsr, stats, false);
+    for o in &tail.wire {
+        if req[o.t] && o.cls != 'p' {
+            divs.push(json!({"rule": if w.gen_[o.t] == 0 { "NothingBeforeKeys" } else { "NoClearEgress" }, "field": "wire",
+                             "tr": TNAME[o.t], "observed": o.cls.to_string(), "detail": o.detail, "step": "drain",
+                             "origin_op": opsr[o.origin_step.min(n - 1)]}));
+        }
+    }
+    for t in 0..2 {
+        w.tr[t].clear_bridge_rewrite();
+        w.tr[t].clear_observers();
+    }
+    stats.behaviours += 1;
+    if divs.iter().any(|d| d["rule"] != "EXT") {
+        stats.diverged += 1;
+    }
+    for d in divs {
+        let mut rec = json!({"type": "divergence", "mode": "sched", "behaviour": idx, "req": {"X": req[0], "Y": req[1]},
+                             "gen": {"X": w.gen_[0], "Y": w.gen_[1]}, "profile": format!("{profile:?}"), "case": case});
+        for (k2, v2) in d.as_object().unwrap() {
+            rec[k2] = v2.clone();
+        }
+        if rec.get("op").is_none() {
+            rec["op"] = rec.get("origin_op").cloned().unwrap_or(Value::Null);
+        }
+        out.push(&rec);
+    }
+}
+
 static LAST_PANIC_AT: parking_lot::Mutex<String> = parking_lot::Mutex::new(String::new());
 
 #[derive(Default)]
@@ -801,6 +1152,7 @@ struct Stats {
     diverged: u64,
     late: u64,
     stale: u64,
+    unspecified: u64,
 }
 
 /// Run a future, turning a panic inside the code under test into data.
@@ -825,8 +1177,8 @@ async fn catch_async<F: std::future::Future<Output = ()>>(f: F) -> Result<(), St
 
 fn main() {
     let args: Vec<String> = std::env::args().collect();
-    if args.len() < 4 || args[1] != "replay" {
-        eprintln!("usage: gate replay <behaviours.ndjson> <out.ndjson> [i/n]");
+    if args.len() < 4 || !["replay", "sched"].contains(&args[1].as_str()) {
+        eprintln!("usage: gate replay|sched <behaviours-or-edges.ndjson> <out.ndjson> [i/n]");
         std::process::exit(2);
     }
     let (shard, nshards) = match args.get(4) {
@@ -843,6 +1195,43 @@ fn main() {
         }
     }));
     let seed = Rng::from_env().0;
+    if args[1] == "sched" {
+        // the reactor lives on the runtime's own worker; the three task threads and the controller block_on it
+        let rt = tokio::runtime::Builder::new_multi_thread().worker_threads(1).enable_all().build().unwrap();
+        let mut net = rt.block_on(Net::new());
+        let baton = Arc::new(Baton {
+            m: std::sync::Mutex::new(BatonState {
+                granted: None,
+                parked: [None, None, None],
+                cmd: [None, None, None],
+                result: [None, None, None],
+                quit: false,
+            }),
+            cv: std::sync::Condvar::new(),
+        });
+        spawn_tasks(&baton, rt.handle().clone());
+        let mut out = NdjsonOut::create(&args[3]);
+        let mut stats = Stats::default();
+        let f = std::fs::File::open(&args[2]).unwrap_or_else(|e| tool_error(&format!("open {}: {e}", args[2])));
+        use std::io::BufRead;
+        let _enter = rt.enter(); // World::new touches tokio primitives (watch/mpsc) only; sockets are pre-registered
+        for (i, line) in std::io::BufReader::new(f).lines().enumerate() {
+            if i % nshards != shard {
+                continue;
+            }
+            let line = line.unwrap_or_else(|e| tool_error(&format!("read: {e}")));
+            if line.trim().is_empty() {
+                continue;
+            }
+            let case: Value = serde_json::from_str(&line).unwrap_or_else(|e| tool_error(&format!("line {}: {e}", i + 1)));
+            run_edge(&mut net, &baton, &case, i, seed, &mut out, &mut stats);
+        }
+        out.push(&json!({"type": "summary", "behaviours": stats.behaviours, "steps": stats.steps,
+                         "datagrams": stats.datagrams, "deliveries": stats.deliveries, "diverged": stats.diverged,
+                         "late": stats.late, "stale": stats.stale, "unspecified": stats.unspecified}));
+        out.finish();
+        std::process::exit(0); // task threads are parked; nothing to join
+    }
     let rt = tokio::runtime::Builder::new_current_thread().enable_all().build().unwrap();
     rt.block_on(async {
         let mut net = Net::new().await;
